@@ -41,6 +41,16 @@ func gen(t *rapid.T) peng.Case {
 	}
 	c := peng.GenProgram(t, peng.Bias{MinN: 1, MaxN: 3, MaxThreads: 3, MinOps: 3, MaxOps: 25, MaxMgrs: 3, Kinds: scen.AllKinds, Barriers: true,
 		MaxSleepUs: 2500, HoldNoRelUs: 5000, StreamItems: 3, AwaitProb: 3, ErrorNodes: true, FullQuorum: true, ReleaseModes: releaseModes})
+	// requests for a method that the servers have no handler for, somewhere among the calls: the
+	// connection's later requests are served one at a time all the same
+	if rapid.IntRange(0, 3).Draw(t, "unknownMethod") == 0 {
+		for k := rapid.IntRange(1, 2).Draw(t, "nUnknown"); k > 0; k-- {
+			pos := rapid.IntRange(0, len(c.Ops)).Draw(t, fmt.Sprintf("unknownPos%d", k))
+			op := peng.Op{Kind: "unknown", Thread: rapid.IntRange(0, c.Threads-1).Draw(t, fmt.Sprintf("unknownThr%d", k)),
+				Mgr: rapid.IntRange(0, len(c.Mgrs)-1).Draw(t, fmt.Sprintf("unknownMgr%d", k)), Call: scen.CallSpec{Node: rapid.IntRange(0, c.N-1).Draw(t, fmt.Sprintf("unknownNode%d", k))}}
+			c.Ops = append(c.Ops[:pos], append([]peng.Op{op}, c.Ops[pos:]...)...)
+		}
+	}
 	// every op targets few servers so that handlers of one connection queue up behind each other
 	if len(c.Mgrs) >= 2 && rapid.Bool().Draw(t, "neverReleasing") {
 		// a handler that never releases (until teardown) on manager 0's connection; the
@@ -78,6 +88,12 @@ func run(c peng.Case) vt.Verdict {
 		return vt.Verdict{OK: true, Inconclusive: true, Msg: r.SetupErr, Classes: []string{"setup-error"}}
 	}
 	v, classes, nontrivial := peng.CheckC04(c, r)
+	for _, op := range c.Ops {
+		if op.Kind == "unknown" {
+			classes = append(classes, "unknown-method-request")
+			break
+		}
+	}
 	if v != nil {
 		return vt.Verdict{OK: false, Key: v.Key, Msg: v.Msg, History: r.Events, Classes: classes}
 	}
@@ -89,7 +105,7 @@ func run(c peng.Case) vt.Verdict {
 func TestProp(t *testing.T) {
 	vt.Main(t, vt.Spec[peng.Case]{
 		ID:           "C04",
-		Rule:         "rapid-generated programs of 3-25 calls of all kinds from 1-3 client managers (one connection each per server) against 1-3 servers; per (server, call) a handler behaviour from {return at once, timed hold then return, Release early then keep running, Release twice, Release from a helper goroutine before / after the handler returns, several goroutines racing to Release, never release until teardown}; oracle over the event log: per connection never more than one handler that has started and neither released nor returned (release is logged before Release is called), replies of released handlers reach their own call (provenance) and are not lost (a call that the harness did not cancel fails only with errors its handlers returned), probes of other managers are answered while a never-releasing handler of manager 0 is held (in half of these cases one more handler is registered on a running server meanwhile), and (1 case in 25) probes of every manager are answered while 100-320 handlers per server that have all called Release are still running, every call ends (a synchronous call blocked in its stub counts), no crash; non-trivial = a released handler observed overlapping a later one (measured), a double / helper-goroutine / concurrent release, or a second client",
+		Rule:         "rapid-generated programs of 3-25 calls of all kinds from 1-3 client managers (one connection each per server) against 1-3 servers, in a quarter of the programs with 1-2 requests for a method the servers have no handler for among them; per (server, call) a handler behaviour from {return at once, timed hold then return, Release early then keep running, Release twice, Release from a helper goroutine before / after the handler returns, several goroutines racing to Release, never release until teardown}; oracle over the event log: per connection never more than one handler that has started and neither released nor returned (release is logged before Release is called), replies of released handlers reach their own call (provenance) and are not lost (a call that the harness did not cancel fails only with errors its handlers returned), probes of other managers are answered while a never-releasing handler of manager 0 is held (in half of these cases one more handler is registered on a running server meanwhile), and (1 case in 25) probes of every manager are answered while 100-320 handlers per server that have all called Release are still running, every call ends (a synchronous call blocked in its stub counts), no crash; non-trivial = a released handler observed overlapping a later one (measured), a double / helper-goroutine / concurrent release, or a second client",
 		Gen:          gen,
 		Run:          run,
 		TrackCurrent: true,
